@@ -45,6 +45,8 @@ def mandv (c : K) (A : M3 K) : Nat → K
 /-- the six independent entries of a symmetric matrix, read in the upper / lower triangle -/
 def upper (A : M3 K) : List K := [A.a00, A.a11, A.a22, A.a01, A.a02, A.a12]
 def lower (A : M3 K) : List K := [A.a00, A.a11, A.a22, A.a10, A.a20, A.a21]
+/-- the symmetric matrix whose independent entries are read in the lower triangle of `A` -/
+def symLower (A : M3 K) : M3 K := M3.sym A.a00 A.a11 A.a22 A.a10 A.a20 A.a21
 
 /-! ## fourth-order objects: stored matrix × stored vector -/
 def dot : List K → List K → K
